@@ -67,6 +67,8 @@ pub struct Layout {
     pub groups: Vec<usize>,
     pub slots: Vec<Slot>,
     pub blocks: Vec<Block>,
+    /// number of nesting levels of dual types above the float
+    pub levels: usize,
 }
 
 impl Layout {
@@ -172,8 +174,11 @@ pub trait Ty: Clone + 'static {
     fn build(dims: &[usize], r: &mut Reader) -> Self;
     fn dump(&self, dims: &[usize], out: &mut Flat);
 
+    /// nesting levels above the float
+    fn levels() -> usize;
     fn layout(dims: &[usize]) -> Layout {
         let mut lay = Layout::default();
+        lay.levels = Self::levels();
         Self::groups(dims, &mut lay.groups);
         let ng = lay.groups.len();
         let cx = Ctx { dims, ng };
@@ -202,6 +207,9 @@ macro_rules! impl_leaf {
                 <$f as Flt>::NAME.to_string()
             }
             fn groups(_: &[usize], _: &mut Vec<usize>) {}
+            fn levels() -> usize {
+                0
+            }
             fn counts(_: &[usize]) -> (usize, usize) {
                 (1, 0)
             }
@@ -240,6 +248,9 @@ macro_rules! impl_scalar {
             type F = T::F;
             fn tname(dims: &[usize]) -> String {
                 format!("{}<{}>", $name, T::tname(dims))
+            }
+            fn levels() -> usize {
+                1 + T::levels()
             }
             fn groups(dims: &[usize], out: &mut Vec<usize>) {
                 for _ in 0..$ngroups { out.push(1); }
@@ -357,6 +368,9 @@ where
     DefaultAllocator: Allocator<D> + Allocator<U1, D> + Allocator<D, D>,
 {
     type F = T::F;
+    fn levels() -> usize {
+        1 + T::levels()
+    }
     fn tname(dims: &[usize]) -> String {
         format!("DualVec<{},{}>", T::tname(dims), dname::<D>(dims, 0))
     }
@@ -397,6 +411,9 @@ where
     DefaultAllocator: Allocator<D> + Allocator<U1, D> + Allocator<D, D>,
 {
     type F = T::F;
+    fn levels() -> usize {
+        1 + T::levels()
+    }
     fn tname(dims: &[usize]) -> String {
         format!("Dual2Vec<{},{}>", T::tname(dims), dname::<D>(dims, 0))
     }
@@ -449,6 +466,9 @@ where
     DefaultAllocator: Allocator<M> + Allocator<M, N> + Allocator<U1, N>,
 {
     type F = T::F;
+    fn levels() -> usize {
+        1 + T::levels()
+    }
     fn tname(dims: &[usize]) -> String {
         format!("HyperDualVec<{},{},{}>", T::tname(dims), dname::<M>(dims, 0), dname::<N>(dims, 1))
     }
